@@ -237,7 +237,8 @@ def write_evidence(prop, tier, seed, level, stats, wall, violations, rule, assum
         'wall_s': round(wall, 3),
         'violations': violations,
     }
-    d = os.path.join(VERIF, 'evidence')
+    # evidence under /verif/evidence always describes /repo itself; runs against a scratch checkout (VERIF_REPO) write elsewhere
+    d = os.path.join(VERIF, 'evidence') if os.path.abspath(REPO) == '/repo' else os.path.join('/tmp', 'verif_scratch', 'evidence')
     os.makedirs(d, exist_ok=True)
     path = os.path.join(d, prop + '.json')
     tmp = path + '.tmp%d' % os.getpid()
@@ -249,7 +250,7 @@ def write_evidence(prop, tier, seed, level, stats, wall, violations, rule, assum
 
 
 def write_replay(prop, n, failure, extra=None):
-    d = os.path.join(VERIF, 'replays', prop)
+    d = os.path.join(VERIF, 'replays', prop) if os.path.abspath(REPO) == '/repo' else os.path.join('/tmp', 'verif_scratch', 'replays', prop)
     os.makedirs(d, exist_ok=True)
     path = os.path.join(d, '%03d.json' % n)
     doc = {'property': prop}
